@@ -288,8 +288,9 @@ func initTopicP2P(t *Topic, sreg *ClientComMessage) error {
 				modeWant:  subs[i].ModeWant,
 				modeGiven: subs[i].ModeGiven,
 				delID:     subs[i].DelId,
-				recvID:    subs[i].RecvSeqId,
-				readID:    subs[i].ReadSeqId,
+				// A read note moves only the stored read mark: received is never behind read.
+				recvID: max(subs[i].RecvSeqId, subs[i].ReadSeqId),
+				readID: subs[i].ReadSeqId,
 			}
 		}
 	} else {
@@ -715,9 +716,10 @@ func (t *Topic) loadSubscribers() error {
 		sub := &subs[i]
 		uid := types.ParseUid(sub.User)
 		t.perUser[uid] = perUserData{
-			delID:     sub.DelId,
-			readID:    sub.ReadSeqId,
-			recvID:    sub.RecvSeqId,
+			delID:  sub.DelId,
+			readID: sub.ReadSeqId,
+			// A read note moves only the stored read mark: received is never behind read.
+			recvID:    max(sub.RecvSeqId, sub.ReadSeqId),
 			private:   sub.Private,
 			modeWant:  sub.ModeWant,
 			modeGiven: sub.ModeGiven,
